@@ -142,6 +142,17 @@ CLAIMED = {
         "Trusted: compute_bootstrap_errors is an oracle; non-default modes (sigmoid, no correlation) only get the ordering / bound predicates.",
         "DESIGN.md section 5 C08",
     ),
+    "C20": (
+        "Lean 4 theorems about a model of fit_model against a solver oracle indexed by call number (induction over the fits of a run) + bridge lemma to the try/except structure re-read from source + fault injection at the library boundary",
+        "retry_same_args / no_retry_on_success / other_errors_propagate / retry_completes / other_failure_ends_run: for every position of the "
+        "failing solve and both failure kinds the run completes with the coefficients of the run in which that fit is answered by the "
+        "un-normalised solve, all other fits untouched; other exception classes propagate. The argument lists of the two model.fit calls "
+        "and the caught exception classes are re-translated from /repo/src each run (bridge_retry_args / bridge_caught by decide). "
+        "QuantileRegressionSolver.fit is wrapped to fail at every call position with SolverError / a cvxpy UserWarning / another "
+        "exception; recorded call sequences and final tables are compared.",
+        "Trusted: the solver itself is an oracle; the un-normalised solve succeeds.",
+        "DESIGN.md section 5 C20",
+    ),
 }
 
 PENDING_REASON = "check not built yet in this session (model and correspondence in progress); not claimed until it is"
